@@ -1,6 +1,7 @@
 """C02 — request parsing is faithful, segmentation-independent, round-trips (structural clauses)."""
 from .. import core, tables
 from ..core import describe, desc_contains, desc_calls
+from ..core import resolve_upvars as resolve_upvars_
 from . import shared
 
 BARE_READ = r"(^|::)(std::io::Read::read|std::io::Read::read_vectored|std::io::Read::read_buf|std::io::BufRead::fill_buf|" \
@@ -23,8 +24,51 @@ def method_table(chk, prog, cfg):
     if f not in prog.hir or not g:
         return
     m = tables.main_table(prog, f)
-    mp, rest, dup = tables.simple_map(m, key_kinds=("lit",))
-    n2v = {}
+    if m is None:
+        # lookup form: `TABLE.iter().find(|m| m.verb() == name).ok_or(Err)` with TABLE a constant list of variants and `verb` the variant ->
+        # spelling table: from_name then returns the variant whose spelling is the name, i.e. the inverse of `verb` on TABLE
+        fb = prog.bodies.get(f)
+        finds = fb.calls_to(r"Iterator>?::find$") if fb else []
+        names_, key_fn, cmp_ok, err_ok = [], None, False, False
+        if len(finds) == 1:
+            recv_, cl_ = describe(prog, fb, finds[0][1]["args"][0]), describe(prog, fb, finds[0][1]["args"][1])
+            arrs = [y for y in core.desc_subterms(recv_) if y[0] == "array"]
+            names_ = [x[2] for x in arrs[0][1] if x[0] == "variant" and x[1].endswith("method::Method")] if arrs else []
+            plain = not [c for c in core.desc_calls(recv_) if core.re.search(r"::(rev|skip|take|filter|step_by|chain)$", c[1])]
+            if cl_[0] == "closure" and cl_[1] in prog.bodies:
+                cb_ = prog.bodies[cl_[1]]
+                r_ = describe(prog, cb_, 0)
+                if r_[0] == "call" and core.re.search(r"PartialEq.*::eq$", r_[1]) and len(r_[2]) == 2:
+                    sides = r_[2]
+                    ups = [x for x in sides if desc_contains(x, lambda y: y[0] == "upvar")]
+                    ks = [x for x in sides if not desc_contains(x, lambda y: y[0] == "upvar")]
+                    if len(ks) == 1 and len(ups) == 1:
+                        # the spelling function: called on the element, or (a new helper) inlined into the predicate
+                        kc = [c[1] for c in desc_calls(ks[0]) if c[1] in prog.bodies] + list(getattr(prog, "inlined", {}).get(cl_[1], []))
+                        kc = sorted(set(kc))
+                        key_fn = kc[0] if len(kc) == 1 else None
+                        up = resolve_upvars_(prog, cb_, ups[0])
+                        cmp_ok = plain and desc_contains(up, lambda y: y[0] == "param" and y[1] == 1) and \
+                            not [c for c in desc_calls(up) if core.re.search(r"lowercase|uppercase|trim", c[1])]
+            d0 = describe(prog, fb, 0)
+            err_ok = "Err" in str(d0) or bool(fb.calls_to(r"Option::<T>::ok_or$"))
+        kt = tables.main_table(prog, key_fn) if key_fn else None
+        v2k = {}
+        if kt is not None:
+            raw_, _, _ = tables.simple_map(kt, key_kinds=("path",))
+            v2k = {tables.variant_name(k): v[1] for k, v in raw_.items() if v[0] == "lit"}
+        chk.ob("R1.from_name.arm", f, "lookup form: find over a constant table of variants by their spelling, compared with the parameter as given",
+               bool(names_) and key_fn is not None and cmp_ok and all(n in v2k for n in names_),
+               f"table {names_}, spelling function {key_fn}, comparison with the parameter {cmp_ok}", cfg=cfg)
+        chk.ob("R1.from_name.rest", f, "unlisted method names are rejected", err_ok, "", cfg=cfg)
+        n2v = {}
+        for n in names_:
+            if n in v2k:
+                n2v.setdefault(v2k[n], n)
+        mp, rest = {}, []
+    else:
+        mp, rest, dup = tables.simple_map(m, key_kinds=("lit",))
+        n2v = {}
     for name, val in mp.items():
         inner = tables.unwrap(val, "Ok")
         ok = inner is not None and inner[0] == "path"
@@ -34,8 +78,9 @@ def method_table(chk, prog, cfg):
     for keys, guard, val, line in rest:
         chk.ob("R1.from_name.rest", f, f"keys={keys}", keys == [("rest",)] and val[0] == "call" and tables.norm_path(val[1]) == "Err",
                "unlisted method names must be rejected", cfg=cfg)
-    chain, base = tables.scrutinee_chain(m)
-    chk.ob("R1.from_name.case", f, "method names matched case-sensitively on the parameter", not any("lowercase" in c or "uppercase" in c for c in chain), f"scrutinee chain {chain}", cfg=cfg)
+    if m is not None:
+        chain, base = tables.scrutinee_chain(m)
+        chk.ob("R1.from_name.case", f, "method names matched case-sensitively on the parameter", not any("lowercase" in c or "uppercase" in c for c in chain), f"scrutinee chain {chain}", cfg=cfg)
     ms = [t for t in tables.fn_tables(prog, g[0]) if "Method" in t.get("scrut_ty", "")]
     chk.floor("Display for Method table", len(ms), 1)
     if not ms:
@@ -64,8 +109,25 @@ def header_table(chk, prog, cfg):
         return
     f, g = f[0], g[0]
     m = tables.main_table(prog, f)
+    if m is None:
+        # the scrutinee is a local (the lower-cased name hoisted into a `let`): take the string table of the function
+        cands = [t for t in tables.fn_tables(prog, f) if "str" in t.get("scrut_ty", "")]
+        m = cands[0] if cands else None
+    chk.floor(f"name table of From<&str> for HeaderType [{cfg}]", 1 if m else 0, 1)
+    if m is None:
+        return
     chain, base = tables.scrutinee_chain(m)
     lowered = any("to_ascii_lowercase" in c or "to_lowercase" in c for c in chain)
+    if not lowered:
+        # the same fact on the MIR: every comparison of the table is made against a value that went through to_ascii_lowercase / to_lowercase
+        fb_ = prog.bodies.get(f)
+        eqs = [t for _, t in fb_.calls() if core.re.search(r"PartialEq.*::eq$", t.get("resolved") or t.get("callee") or "")] if fb_ else []
+        sides = []
+        for t in eqs:
+            ds_ = [describe(prog, fb_, a) for a in t["args"]]
+            if any(d_[0] == "lit" and isinstance(d_[1], str) for d_ in ds_):
+                sides += [d_ for d_ in ds_ if not (d_[0] == "lit" and isinstance(d_[1], str))]
+        lowered = bool(sides) and all(desc_contains(d_, lambda y: y[0] == "call" and core.re.search(r"to_ascii_lowercase$|to_lowercase$", y[1]) is not None) for d_ in sides)
     chk.ob("R2.case_insensitive", f, "scrutinee is the lower-cased name", lowered, f"scrutinee chain is {chain}: header names would be matched case-sensitively", cfg=cfg)
     mp, rest, dup = tables.simple_map(m, key_kinds=("lit",))
     k2v = {}
@@ -81,6 +143,12 @@ def header_table(chk, prog, cfg):
             bind = arm["pat"].get("name")
             arg = val[2][0]
             custom_ok = desc_contains(arg, lambda x: x == ("local", bind))
+    if not custom_ok:
+        # on the MIR: every HeaderType::Custom(..) built here carries a value that went through to_ascii_lowercase / to_lowercase
+        fb_ = prog.bodies.get(f)
+        cs_ = [describe(prog, fb_, s_["rv"]["ops"][0]) for blk_ in (fb_.blocks if fb_ else []) for s_ in blk_["stmts"]
+               if s_.get("rv") and s_["rv"].get("k") == "agg" and str(s_["rv"].get("adt", "")).endswith("HeaderType") and s_["rv"].get("variant") == "Custom" and s_["rv"].get("ops")]
+        custom_ok = bool(cs_) and all(desc_contains(d_, lambda y: y[0] == "call" and core.re.search(r"to_ascii_lowercase$|to_lowercase$", y[1]) is not None) for d_ in cs_)
     chk.ob("R2.custom_lower", f, "Custom(_) carries the lower-cased name", custom_ok and lowered,
            "unknown header names must be stored lower-cased so that lookups are case-insensitive", cfg=cfg)
     ms = [t for t in tables.fn_tables(prog, g) if "HeaderType" in t.get("scrut_ty", "")]
